@@ -147,6 +147,28 @@ theorem C13_history_upd (cache : List Rec) (h : History) (now : Int) (ty : Strin
   · intro q known hq
     simp [responderHears, hq]
 
+/-- **Every QM ask (re)stamps the history, whatever was stored before.**  After a QM question was asked at `now` (not suppressed)
+— also when the history already held it with the very same known answers — the same question asked at `now'` at most 999 ms later,
+with a known-answer list covering the one sent at `now`, is suppressed.  (So asks at `T0`, `T0+1000` and `T0+1500` with equal
+known answers: the third is suppressed by the second.) -/
+theorem C13_repeat_suppressed (cache cache' : List Rec) (h : History) (now now' : Int) (ty : String)
+    (hasked : (askType lower cache h now false ty).1 ≠ none) (hgap : now' - now ≤ 999)
+    (hcov : ∀ r ∈ knownAnswers lower cache ty 12 1 now, ∃ k ∈ knownAnswers lower cache' ty 12 1 now', r.beq lower k = true) :
+    (askType lower cache' (askType lower cache h now false ty).2 now' false ty).1 = none := by
+  rw [C13_suppress_iff]
+  exact ⟨rfl, _, (C13_history_upd lower cache h now ty).2.2.1 hasked, hgap, hcov⟩
+
+/-- **A heard QM question is remembered regardless of what the responder answers.**  `responderHears` has no access to the
+answer set: after hearing the PTR question of `ty` (QM) at `now` with the peer's known answers `known`, this instance's own QM
+question at most 999 ms later is suppressed whenever it knows every record of `known` — in particular when the peer's list
+suppressed every answer the responder had. -/
+theorem C13_heard_suppressed (cache' : List Rec) (h : History) (now now' : Int) (ty : String) (known : List Rec)
+    (hgap : now' - now ≤ 999)
+    (hcov : ∀ r ∈ known, ∃ k ∈ knownAnswers lower cache' ty 12 1 now', r.beq lower k = true) :
+    (askType lower cache' (responderHears lower h { name := ty, type := 12, class_ := 1, unique := false } now known) now' false ty).1 = none := by
+  rw [C13_suppress_iff]
+  exact ⟨rfl, _, (C13_history_upd lower [] h now ty).2.2.2.1 _ known rfl, hgap, hcov⟩
+
 /-- **Lookup progression.**  The first request of a lookup is QU unless a type is forced (then the forced type); every
 later one is QM. -/
 theorem C13_progression (forced : Option Bool) :
